@@ -16,7 +16,7 @@ func init() {
 	register(&Rule{ID: "LK10", Min: 1, Run: ruleLK10,
 		Doc: "lock-busy-is-final: a busy lock ends the command. The sentinel ErrLockBusy is produced by the lock primitive and looked at only to explain the failure; no test for it (errors.Is, ==) sits in a loop or in a function that can call itself, and cobra's Execute is not called in a loop: a command that comes round again after `lock busy` waits for the lock (the property says it never does), and everything it consumed on the first attempt - standard input above all - is gone on the second"})
 	register(&Rule{ID: "LK11", Min: 1, Run: ruleLK11,
-		Doc: "hooks-leave-the-store-alone: what cobra runs around a command (PersistentPreRun[E], PreRun[E], PostRun[E], PersistentPostRun[E]) cannot reach the lock primitive, a mutation of the log or a read of the log. The command itself is one locked read-validate-append step (or one lock-free read); a hook that touches the store is a second step of the same invocation: a second lock acquisition that can fail with `lock busy` after the command committed and printed its reply, a second snapshot of the log, or a reader without the log reader's tolerance for a torn tail"})
+		Doc: "hooks-leave-the-store-alone: what cobra runs around a command (PersistentPreRun[E], PreRun[E], PostRun[E], PersistentPostRun[E], and the package-level cobra.OnInitialize / cobra.OnFinalize - the latter runs whatever the command's outcome was) cannot reach the lock primitive, a mutation of the log or a read of the log. The command itself is one locked read-validate-append step (or one lock-free read); a hook that touches the store is a second step of the same invocation: a second lock acquisition that can fail with `lock busy` after the command committed and printed its reply, a second snapshot of the log, or a reader without the log reader's tolerance for a torn tail"})
 	register(&Rule{ID: "RD7", Min: 2, Run: ruleRD7,
 		Doc: "one-snapshot-per-read-command: a command that never takes the lock (list, show, where ...) reads the log at most once per invocation: on every path from its cobra handler at most one call of the log reader executes, and none in a loop. Two reads are two snapshots; a writer that commits in between makes the one invocation report a mixture of an older and a newer state, a state the store never passed through"})
 	register(&Rule{ID: "OU18", Min: 6, Run: ruleOU18,
@@ -180,6 +180,28 @@ func (c *Ctx) cobraRegistrations() []cobraReg {
 			}
 		})
 	}
+	// package-level hooks: cobra.OnInitialize(f...) runs before, cobra.OnFinalize(f...) after every command - the latter
+	// whatever the command's outcome was
+	for _, f := range c.Fns {
+		for _, call := range callsIn(f) {
+			var field string
+			switch calleeFullName(call.Common()) {
+			case "github.com/spf13/cobra.OnFinalize":
+				field = "OnFinalize"
+			case "github.com/spf13/cobra.OnInitialize":
+				field = "OnInitialize"
+			default:
+				continue
+			}
+			for _, a := range variadicElems(call.Common().Args) {
+				for _, g := range funcValuesOf(a, 0) {
+					if c.InModule(g) {
+						out = append(out, cobraReg{field, g, call.Pos()})
+					}
+				}
+			}
+		}
+	}
 	sort.Slice(out, func(i, j int) bool {
 		if out[i].Field != out[j].Field {
 			return out[i].Field < out[j].Field
@@ -191,6 +213,8 @@ func (c *Ctx) cobraRegistrations() []cobraReg {
 
 func isHookField(name string) bool {
 	switch name {
+	case "OnFinalize", "OnInitialize":
+		return true
 	case "PersistentPreRun", "PersistentPreRunE", "PreRun", "PreRunE", "PostRun", "PostRunE", "PersistentPostRun", "PersistentPostRunE":
 		return true
 	}
